@@ -72,6 +72,9 @@ type c20Dump struct {
 	wrong    hpke.PrivateKey
 	archive  []byte // encrypted collection archive of the pristine dump
 	tarBytes []byte // plain collection tar of the pristine dump
+	codec    string
+	meta     []c20FileMeta // aligned with files; meta[0] (manifest.json) unused
+	nodeIDs  [][]string    // node ids per graph, in file order, as spelled in the dump
 }
 
 var c20GeneratedAt = regexp.MustCompile(`"generated_at": "[^"]*"`)
@@ -171,15 +174,28 @@ func c20BuildDump(kv map[string]string) (*c20Dump, error) {
 	if err := os.WriteFile(manifestPath, raw, 0o600); err != nil {
 		return nil, err
 	}
-	d := &c20Dump{expected: src.canonical(), batch: c20Atoi(kv["lbatch"], batch)} // lbatch: BatchSize of Load only
+	d := &c20Dump{expected: src.canonical(), batch: c20Atoi(kv["lbatch"], batch), codec: string(codec)} // lbatch: BatchSize of Load only
 	d.files = append(d.files, c20File{path: retriever.ManifestFileName, data: raw})
-	for _, g := range res.Manifest.Graphs {
-		for _, f := range g.Files {
+	d.meta = append(d.meta, c20FileMeta{})
+	for gi, g := range res.Manifest.Graphs {
+		for fi, f := range g.Files {
 			data, err := os.ReadFile(filepath.Join(out, filepath.FromSlash(f.Path)))
 			if err != nil {
 				return nil, err
 			}
 			d.files = append(d.files, c20File{path: f.Path, data: data})
+			d.meta = append(d.meta, c20FileMeta{graph: gi, file: fi, phase: f.Phase})
+		}
+	}
+	// id spelling of the honest dump (numeric = what Dump wrote); also records the node ids per graph
+	if err := d.restyle(kv["ids"]); err != nil {
+		return nil, fmt.Errorf("restyle: %w", err)
+	}
+	if kv["ids"] != "" && kv["ids"] != "numeric" {
+		for _, f := range d.files {
+			if err := os.WriteFile(filepath.Join(out, filepath.FromSlash(f.path)), f.data, 0o600); err != nil {
+				return nil, err
+			}
 		}
 	}
 	if d.priv, d.pub, err = retriever.GenerateArchiveKeyPair(); err != nil {
@@ -228,6 +244,7 @@ func c20ErrClass(err error) string {
 	}
 	m := err.Error()
 	for _, p := range [][2]string{
+		{"references missing", "dangling-endpoint"}, {"duplicate source node", "duplicate-id"},
 		{"sha256 mismatch", "checksum"}, {"compressed byte mismatch", "bytecount"},
 		{"decode manifest", "manifest-json"}, {"read manifest", "manifest-read"},
 		{"does not match manifest count", "count"}, {"but manifest expected", "entity-count-after-write"},
@@ -404,7 +421,7 @@ func (r *c20Runner) Step(t []string, raw string) string {
 		r.stats.Inc("dumps")
 		return fmt.Sprintf("ok files=%d sizes=%s arc=%d", len(d.files), strings.Join(sizes, ","), len(d.archive))
 	}
-	if t[0] == "path" || t[0] == "frames" || t[0] == "clean" || t[0] == "join" {
+	if t[0] == "path" || t[0] == "frames" || t[0] == "clean" || t[0] == "join" || t[0] == "canon" {
 		// corpus files of the sibling suites c20path* / c20frames* also match the corpus glob "c20*.ops" of this suite
 		return "foreign-op"
 	}
@@ -502,6 +519,10 @@ func (r *c20Runner) Step(t []string, raw string) string {
 		}
 		r.stats.Inc("arcmans.built")
 		return d.loadKeepClass(r.stats, arc.Bytes(), d.priv)
+	case (t[0] == "edge" || t[0] == "arcedge" || t[0] == "dupnode") && len(t) >= 4:
+		return r.semanticOp(t)
+	case t[0] == "uarc" && len(t) == 6:
+		return r.uarcOp(t[1], t[2], t[3:])
 	case t[0] == "arc" && len(t) >= 2:
 		arc := append([]byte(nil), d.archive...)
 		switch {
@@ -891,6 +912,93 @@ func (c20Suite) Gen(rng *Rng, tier string, w *bufio.Writer, stats *Stats) {
 					fmt.Fprintln(w, o)
 				}
 				ops = ops[n:]
+			}
+		}
+	}
+	// --- semantically consistent tampering: re-hashed fragments with dangling / cross-graph endpoints and duplicate
+	// ids, over multi-graph dumps in every id spelling; and the honest dumps themselves (`shared`: same ids in every graph)
+	styles := []string{"numeric", "element", "uuid", "padded", "shared"}
+	for ci, codec := range codecs {
+		for si, style := range styles {
+			if !thorough && (ci+si)%3 != int(fullCodec) && style != "element" {
+				continue // quick: every style and every codec occur, not the full product (element ids with all codecs)
+			}
+			dumpLine := fmt.Sprintf("dump codec=%s graphs=3 nodes=3 edges=3 shard=2 batch=2 gseed=%d lbatch=%d ids=%s", codec, 300+ci, 1+si%3, style)
+			d, err := c20BuildDump(c20KV(strings.Fields(dumpLine)[1:]))
+			if err != nil {
+				fmt.Fprintf(w, "# case %d gen-failed %s\nbad-gen\n", caseNo+1, strings.ReplaceAll(err.Error(), "\n", " "))
+				continue
+			}
+			ops := []string{"noop", "arc noop"}
+			graphs := len(d.nodeIDs)
+			for fi := 1; fi < len(d.files); fi++ {
+				m := d.meta[fi]
+				records := d.recordCount(fi)
+				if m.phase == retriever.PhaseEdges {
+					for k := 0; k < records; k++ {
+						for _, side := range []string{"s", "e"} {
+							// endpoints that exist in ANOTHER graph only (earlier and later), and nowhere
+							for g := 0; g < graphs; g++ {
+								if g != m.graph {
+									ops = append(ops, fmt.Sprintf("edge %d %d %s g%dn%d", fi, k, side, g, rng.Intn(len(d.nodeIDs[g]))))
+									if k == 0 {
+										ops = append(ops, fmt.Sprintf("arcedge %d %d %s g%dn%d", fi, k, side, g, rng.Intn(len(d.nodeIDs[g]))))
+									}
+								}
+							}
+							ops = append(ops, fmt.Sprintf("edge %d %d %s missing", fi, k, side))
+							stats.Inc("gen.semantic_edge")
+						}
+					}
+				} else {
+					for k := 0; k < records; k++ {
+						for n := range d.nodeIDs[m.graph] {
+							ops = append(ops, fmt.Sprintf("dupnode %d %d g%dn%d", fi, k, m.graph, n))
+							stats.Inc("gen.semantic_dup")
+						}
+					}
+				}
+			}
+			for len(ops) > 0 {
+				n := len(ops)
+				if n > 120 {
+					n = 120
+				}
+				header(fmt.Sprintf("semantic %s ids=%s", codec, style), dumpLine)
+				for _, o := range ops[:n] {
+					fmt.Fprintln(w, o)
+				}
+				ops = ops[n:]
+			}
+		}
+	}
+	// --- hostile encrypted archives: non-canonical manifest path spellings x altered fragment, every unpack entry point
+	for ci, codec := range codecs {
+		dumpLine := fmt.Sprintf("dump codec=%s graphs=2 nodes=3 edges=3 shard=2 batch=2 gseed=%d", codec, 400+ci)
+		d, err := c20BuildDump(c20KV(strings.Fields(dumpLine)[1:]))
+		if err != nil {
+			continue
+		}
+		for fi := 1; fi < len(d.files); fi++ {
+			if !thorough && fi > 2 && fi != len(d.files)-1 {
+				continue
+			}
+			for _, spell := range c20Spellings {
+				for _, alter := range []string{"none", "flip", "subst", "trunc", "append"} {
+					for mi, mode := range []string{"staged", "stagedforce", "encdirect"} {
+						if !thorough && mode != "staged" && (fi+mi+ci)%3 != 0 {
+							continue
+						}
+						pre := Pick(rng, []string{"absent", "empty", "full"})
+						if mode == "staged" {
+							pre = "absent"
+						}
+						// one op per case: the known finding of the direct API must not mask the staged ones
+						header("hostile-archive "+codec, dumpLine)
+						fmt.Fprintf(w, "uarc %s %s %d %s %s\n", mode, pre, fi, spell, alter)
+						stats.Inc("gen.uarc")
+					}
+				}
 			}
 		}
 	}
